@@ -1048,6 +1048,9 @@ pub fn c11(r: &mut Rng, sz: &Sizes, out: &mut Vec<String>) {
         let b = near(r, &a, &p);
         out.push(format!("cmp\t{}\t{}", sx(&a), sx(&b)));
     }
+    // birthday-sized: one object of 300 000 (thorough 600 000) members with pairwise different shapes
+    out.push(format!("p_display_wide\t{}\t!ok", if sz.pairs > 10_000 { 600_000 } else { 300_000 }));
+    out.push("p_display_wide\t1000\t!ok".to_string());
 }
 
 pub fn c12(r: &mut Rng, sz: &Sizes, out: &mut Vec<String>) {
